@@ -517,7 +517,11 @@ class RSeq:
                 return "max_steps"
             if len(self.events) >= event_cap:
                 return "event_cap"
-            o = self.step()
+            try:
+                o = self.step()
+            except OverflowError as ex:
+                # exact Python integers beyond the float range (i**j**k): no defined reference behaviour
+                raise Undefined(f"integer overflow in the reference: {ex}")
             if o == "raised":
                 return "raised"
             if o == "completed":
